@@ -7,7 +7,7 @@
    with '4s'), see C06_connect_ipv6_refuted; what is proved is the _partial statement whose
    extra hypothesis is exactly the complement of the finding's input class. *)
 From Coq Require Import List Bool Ascii NArith.
-From TxVerif Require Import Lib.Bytes Spec.Rfc1928 Spec.C06 Model.SocksEnc Proofs.C06Proofs.
+From TxVerif Require Import Lib.Bytes Spec.Rfc1928 Spec.C05 Model.SocksTypes Model.Socks Proofs.C05Relay Model.SocksEnc Proofs.C06Proofs Spec.C06.
 Import ListNotations.
 Open Scope N_scope.
 
@@ -40,6 +40,15 @@ Print Assumptions C06_connect_ipv6_refuted.
 Theorem C06_greeting : version_bytes = Some greeting_noauth.
 Proof. exact greeting_exact. Qed.
 Print Assumptions C06_greeting.
+
+(* "only after the server selects it": a method-selection reply that is not VER=5 METHOD=0 -- another
+   method (incl. 2, which the parser lets through), another version -- makes the machine write nothing,
+   whatever follows in the same segment *)
+Theorem C06_no_request_unless_selected : forall cfg v m rest,
+  (code v =? 5)%N && (code m =? 0)%N = false ->
+  let '(_, es, _) := op_recv cfg awaiting_method (v :: m :: rest) in no_write es = true.
+Proof. exact no_request_unless_selected. Qed.
+Print Assumptions C06_no_request_unless_selected.
 
 (* non-vacuity: a concrete non-trivial target meets the hypotheses *)
 Example C06_hypotheses_satisfiable :
